@@ -1,5 +1,5 @@
 """Specification of type instantiation and term instantiation on terms."""
-from spec.api import implies, iff, ite, lemma, requires, ensures, decreases
+from spec.api import implies, iff, ite, lemma, requires, ensures, decreases, as_set, empty_set
 from kernel.term import Term, SVar, Var, Const, Comb, Abs, Bound
 from kernel.type import Type, STVar, TVar, TConst
 from spec.types import tsubst
@@ -38,5 +38,25 @@ def subst_spec(t: 'Term', sv: 'map[str,Term]', vv: 'map[str,Term]') -> 'Term':
         return Comb(subst_spec(t.fun, sv, vv), subst_spec(t.arg, sv, vv))
     elif t.is_abs():
         return Abs('_', t.var_T, subst_spec(t.body, sv, vv))
+    else:
+        return t
+
+
+def svars_of(t: 'Term') -> 'set[Term]':
+    """The schematic variables (name and type) occurring in t."""
+    if t.is_svar():
+        return as_set((t,))
+    elif t.is_comb():
+        return svars_of(t.fun) | svars_of(t.arg)
+    elif t.is_abs():
+        return svars_of(t.body)
+    else:
+        return empty_set('Term')
+
+
+def inst_ty(t: 'Term', tyinst: 'map[str,Type]') -> 'Term':
+    """Type instantiation as Term.subst applies it: skipped when the type instantiation is empty."""
+    if tyinst:
+        return subst_type_spec(t, tyinst)
     else:
         return t
